@@ -8,6 +8,7 @@ from __future__ import annotations
 
 import io
 import json
+import re
 import warnings
 
 import sqlalchemy as sa
@@ -71,7 +72,8 @@ def cons_json(c):
 
 
 def kw_json(kw):
-    return sorted([[str(k), str(v)] for k, v in (kw or {}).items()])
+    # `unique` arrives as 0/1 from SQLite reflection: it is a truth value
+    return sorted([[str(k), str(bool(v)) if k == "unique" else str(v)] for k, v in (kw or {}).items()])
 
 
 def index_json(ix):
@@ -216,7 +218,7 @@ def canon_sql(text):
     CREATE TABLE (...) is not part of "the same DDL" - the clause lines are sorted."""
     out = []
     for stmt in text.split("\n\n"):
-        if stmt.lstrip().startswith("CREATE TABLE") and "(\n" in stmt and "\n)" in stmt:
+        if re.match(r"\s*CREATE (\w+ )*TABLE ", stmt) and "(\n" in stmt and "\n)" in stmt:
             head, rest = stmt.split("(\n", 1)
             body, tail = rest.rsplit("\n)", 1)
             lines = sorted(l.strip().rstrip(",") for l in body.split("\n"))
@@ -355,12 +357,13 @@ def gen_leaf(rng, lossy_p=0.12):
     if kind == "addUq":
         kw = {}
         if lossy:
-            kw[rng.choice(["deferrable", "initially"])] = rng.choice([False, ""])
+            if rng.random() < 0.6:
+                kw["deferrable"] = False
+            else:
+                kw["initially"] = ""
         elif rng.random() < 0.2:
             kw["deferrable"] = True
             kw["initially"] = rng.choice(["DEFERRED", "IMMEDIATE"])
-        if "initially" in kw and kw["initially"] is False:
-            kw["initially"] = ""
         return ops.CreateUniqueConstraintOp(rng.choice([None, "uq_x"]), tn, rng.sample(COLS, rng.choice([1, 2])), schema=sc, **kw)
     if kind == "addFk":
         kw = {}
